@@ -7,6 +7,7 @@ package psi
 
 import (
 	"github.com/Comcast/gots/v2"
+	"github.com/Comcast/gots/v2/packet"
 )
 
 // Helpers used by contract clauses.
@@ -29,6 +30,7 @@ func verifExists(lo, hi int, f func(int) bool) bool {
 }
 
 func verifFresh(x interface{}) bool       { return true }
+func verifVisited(m interface{}, k int) bool { return true }
 func verifSeparate(a, b interface{}) bool { return true }
 
 func verifSnap(b []byte) []byte {
@@ -273,4 +275,126 @@ func specMBR(d *pmtDescriptor) uint64 {
 //@     invariant forall j in 0..rangeindex+1 :: !(descOf(es.descriptors[j]).tag == 127 && len(descOf(es.descriptors[j]).data) >= 1 && descOf(es.descriptors[j]).data[0] == 32)
 //@     decreases len(es.descriptors) - rangeindex
 
+// ---------------------------------------------------------------- C07: PAT
+
+// A program association section carried with pointer_field 0: table header at 1..3, program
+// entries of 4 bytes from offset 9; specPATn entries.
+func specPATn(p pat) int { return (int(p[2]%4)*256 + int(p[3]) - 9) / 4 }
+
+func specPATpn(p pat, k int) int  { return int(p[9+4*k])*256 + int(p[10+4*k]) }
+func specPATpid(p pat, k int) int { return int(p[11+4*k]%32)*256 + int(p[12+4*k]) }
+
+// specWFPAT: pointer_field 0, section_length >= 9 covering whole entries, all inside the bytes.
+func specWFPAT(p pat) bool {
+	sl := int(p[2]%4)*256 + int(p[3])
+	return len(p) >= 13 && p[0] == 0 && sl >= 9 && (sl-9)%4 == 0 && 4+sl <= len(p)+0 && sl <= len(p)
+}
+
+func specHas(m map[int]int, k int) bool {
+	_, ok := m[k]
+	return ok
+}
+
+func patOf(x PAT) pat {
+	v, _ := x.(pat)
+	return v
+}
+
+func isPat(x PAT) bool {
+	_, ok := x.(pat)
+	return ok
+}
+
+//@ func PointerField(psi []byte) uint8
+//@   props C07 C06
+//@   requires len(psi) >= 1
+//@   ensures result == psi[0]
+//@   modifies nothing
+
+//@ func sectionLength(psi []byte) uint16
+//@   props C07 C06
+//@   requires len(psi) >= 3
+//@   ensures result == uint16(psi[1]%4)*256+uint16(psi[2])
+//@   modifies nothing
+
+//@ func SectionLength(psi []byte) uint16
+//@   props C07 C06
+//@   requires len(psi) >= 1 && psi[0] != 255 && (1+int(psi[0]) < len(psi) ==> 4+int(psi[0]) <= len(psi))
+//@   ensures 1+int(psi[0]) >= len(psi) ==> result == 0
+//@   ensures 1+int(psi[0]) < len(psi) ==> result == uint16(psi[2+int(psi[0])]%4)*256+uint16(psi[3+int(psi[0])])
+//@   modifies nothing
+
+//@ func (p pat) NumPrograms() int
+//@   props C07
+//@   requires specWFPAT(p)
+//@   ensures result == specPATn(p)
+//@   modifies nothing
+
+// specPATLast: index of the last of the first n entries whose program_number is pn, or -1.
+func specPATLast(p pat, pn int, n int) int {
+	if n <= 0 {
+		return -1
+	}
+	if specPATpn(p, n-1) == pn {
+		return n - 1
+	}
+	return specPATLast(p, pn, n-1)
+}
+
+//@ recursive specPATLast
+
+// specMapIs(m, p, n): m is exactly the program map of the first n entries: the entries with
+// non-zero program_number, each mapped to the PID of its last occurrence.
+func specMapIs(m map[int]int, p pat, n int) bool {
+	return verifForall(0, 65536, func(pn int) bool {
+		l := specPATLast(p, pn, n)
+		return specHas(m, pn) == (pn > 0 && l >= 0) && (!(pn > 0 && l >= 0) || m[pn] == specPATpid(p, l))
+	})
+}
+
+//@ func (p pat) ProgramMap() map[int]int
+//@   props C07
+//@   requires specWFPAT(p)
+//@   ensures result != nil && fresh(result)
+//@   ensures specMapIs(result, p, specPATn(p))
+//@   ensures forall pn in 65536..1<<62 :: !specHas(result, pn)
+//@   ensures forall pn in -(1<<62)..0 :: !specHas(result, pn)
+//@   ensures specPATn(p) == 0 ==> forall pn in 0..65536 :: !specHas(result, pn)
+//@   ensures specPATn(p) == 1 ==> forall pn in 0..65536 :: specHas(result, pn) == (pn == specPATpn(p, 0) && pn > 0)
+//@   ensures specPATn(p) == 1 && specPATpn(p, 0) > 0 ==> specHas(result, specPATpn(p, 0)) && result[specPATpn(p, 0)] == specPATpid(p, 0)
+//@   modifies nothing
+//@   loop 1 (i int, counter int, m map[int]int)
+//@     invariant 0 <= i && i <= specPATn(p) && counter == 8+4*i && m != nil && fresh(m)
+//@     invariant specMapIs(m, p, i)
+//@     invariant forall pn in 65536..1<<62 :: !specHas(m, pn)
+//@     invariant forall pn in -(1<<62)..0 :: !specHas(m, pn)
+//@     invariant i == 0 ==> forall pn in 0..65536 :: !specHas(m, pn)
+//@     invariant i == 1 ==> forall pn in 0..65536 :: specHas(m, pn) == (pn == specPATpn(p, 0) && pn > 0)
+//@     invariant i == 1 && specPATpn(p, 0) > 0 ==> specHas(m, specPATpn(p, 0)) && m[specPATpn(p, 0)] == specPATpid(p, 0)
+//@     decreases specPATn(p) - i
+
+//@ func (p pat) SPTSpmtPID() (pid int, err error)
+//@   props C07
+//@   requires specWFPAT(p)
+//@   ensures specPATn(p) > 1 ==> err != nil
+//@   modifies nothing
+
+//@ func NewPAT(patBytes []byte) (x PAT, err error)
+//@   props C07
+//@   ensures len(patBytes) < 13 ==> x == nil && err == gots.ErrInvalidPATLength
+//@   ensures len(patBytes) >= 13 && len(patBytes) != 188 ==> err == nil && isPat(x) && len(patOf(x)) == len(patBytes) && &patOf(x)[0] == &patBytes[0]
+//@   modifies nothing
+
+//@ func IsPMT(pkt *packet.Packet, x PAT) (is bool, err error)
+//@   props C07
+//@   requires pkt != nil && (x != nil ==> isPat(x) && specWFPAT(patOf(x)))
+//@   ensures x == nil ==> !is && err == gots.ErrNilPAT
+//@   ensures x != nil ==> err == nil
+//@   ensures x != nil && !is ==> forall pn in 1..65536 :: specPATLast(patOf(x), pn, specPATn(patOf(x))) >= 0 ==> specPATpid(patOf(x), specPATLast(patOf(x), pn, specPATn(patOf(x)))) != int(pkt[1]%32)*256+int(pkt[2])
+//@   modifies nothing
+//@   loop 1 (pmtMap map[int]int, pid int)
+//@     invariant pid == int(pkt[1]%32)*256+int(pkt[2]) && x != nil && specMapIs(pmtMap, patOf(x), specPATn(patOf(x)))
+//@     invariant forall kk in 0..65536 :: verifVisited(pmtMap, kk) ==> pmtMap[kk] != pid
+
 var _ = gots.ErrNoPayload
+var _ = packet.PacketSize
